@@ -452,10 +452,10 @@ func (iv integerValue) ToString(b io.Writer, s px.FormatContext, g px.RDetect) {
 		}
 		computedFieldWidth := len(sign) + len(pfx) + intMax(numWidth, len(intString))
 
-		for spacePad := totWidth - computedFieldWidth; spacePad > 0; spacePad-- {
-			_, err = b.Write([]byte{' '})
-			if err != nil {
-				break
+		spacePad := totWidth - computedFieldWidth
+		if !f.IsLeft() {
+			for ; spacePad > 0 && err == nil; spacePad-- {
+				_, err = b.Write([]byte{' '})
 			}
 		}
 		if err != nil {
@@ -480,6 +480,10 @@ func (iv integerValue) ToString(b io.Writer, s px.FormatContext, g px.RDetect) {
 		}
 		if err == nil {
 			_, err = io.WriteString(b, intString)
+		}
+		for ; spacePad > 0 && err == nil; spacePad-- {
+			// Left adjusted. Pad to the right
+			_, err = b.Write([]byte{' '})
 		}
 	case 'e', 'E', 'f', 'g', 'G':
 		floatValue(iv.Float()).ToString(b, px.NewFormatContext(DefaultFloatType(), f, s.Indentation()), g)
